@@ -75,6 +75,13 @@ def generate(ctx):
     for i in range(ctx.budget(60, 600)):
         s = rng.randrange(-(10**9), 4 * 10**9)
         cases.append({"kind": "zone", "zone": rng.choice(zones), "u": s * 10**6 + rng.choice(mics)})
+    # named zones, systematic: instants around every change of UTC offset of two years, in particular
+    # inside the repeated wall-clock interval at the end of daylight saving time (PEP 495 fold=1)
+    for z in zones:
+        for u in zone_transitions(z):
+            for d in (-1800, -1, 0, 1, 1800):
+                for us in (0, 250000):
+                    cases.append({"kind": "zone", "zone": z, "u": (u + d) * 10**6 + us})
     for i in range(ctx.budget(40, 400)):
         s = rng.randrange(-(10**9), 4 * 10**9)
         off = rng.choice([0, 0, 60, -60, 330, -570, 1, -1])
@@ -93,6 +100,30 @@ def generate(ctx):
         digits = "".join(rng.choice("0123456789") for _ in range(rng.choice([1, 2, 3, 4, 4, 4, 5, 6, 9])))
         cases.append({"kind": "offbytes", "bytes": hx(bytes([sign]) + digits.encode())})
     return cases
+
+
+_TRANS = {}
+
+
+def zone_transitions(zone, years=(2005, 2021)):
+    """epoch seconds (UTC) at which the zone's UTC offset changes, found by scanning hour by hour"""
+    if zone in _TRANS:
+        return _TRANS[zone]
+    import dateutil.tz
+
+    tz = dateutil.tz.gettz(zone)
+    out = []
+    for y in years:
+        t0 = int(datetime.datetime(y, 1, 1, tzinfo=datetime.timezone.utc).timestamp())
+        prev = None
+        for h in range(0, 366 * 24 * 2):
+            t = t0 + h * 1800
+            off = datetime.datetime.fromtimestamp(t, datetime.timezone.utc).astimezone(tz).utcoffset()
+            if prev is not None and off != prev:
+                out.append(t)
+            prev = off
+    _TRANS[zone] = out
+    return out
 
 
 def indep_parse_date(text: bytes):
@@ -240,7 +271,9 @@ def check_cases(ctx, cases):
             elif t.offset_minutes() != off:
                 ctx.fail(case, "offset not preserved", "offset-lost", {"got": t.offset_bytes.decode("latin1")})
             back = t.to_datetime()
-            if back != dt or back.utcoffset() != dt.utcoffset():
+            # (compared as instant + offset: Python's == between aware datetimes of different zones is
+            #  always False when one of them is an ambiguous wall-clock time, PEP 495)
+            if to_pair(back) != (u, off) or back.utcoffset() != dt.utcoffset():
                 ctx.fail(case, "datetime -> model -> datetime is not the identity", "dt-roundtrip", {"back": back.isoformat()})
             reqs.append({"op": "from_dt", "u": u, "off": off})
             post.append(("dt", case, (s_, us_, t.offset_bytes, to_pair(back), exp_bytes)))
